@@ -12,13 +12,14 @@ import sys
 import types
 import warnings
 
-from ..core import Violation, HarnessError, stream, sut, exc_name
+from ..core import Violation, HarnessError, InjectedFault, stream, sut, exc_name
 from ..core import deep
 
 ID = "C10"
 UNSET = "<unset>"
 
-NAMES = ["c", "al", "ad", "l", "d", "s", "fac", "dyn", "t", "u", "inst", "ts", "td", "us", "tn"]
+NAMES = ["c", "al", "ad", "l", "d", "s", "fac", "dyn", "t", "u", "inst", "ts", "td", "us", "tn",
+         "ps"]
 
 DYN = types.ModuleType("simtraits.dyn")
 sys.modules["simtraits.dyn"] = DYN
@@ -43,6 +44,7 @@ def declared_default(cls_name, name):
         "c": 3, "al": [1, 2], "ad": {"k": 1}, "l": [1, 2, 3], "d": {"a": 1}, "s": {1, 2},
         "fac": {"made": True}, "dyn": ["dyn", cls_name], "t": ([], 0), "u": [], "inst": [7],
         "ts": (set(), 0), "td": ({}, 0), "us": set(), "tn": ("", (set(), 0)),
+        "ps": ["ps", cls_name],
     }
     if cls_name == "B":
         d["l"] = [9]
@@ -77,6 +79,7 @@ class Prop:
     def gen(self, seed):
         c = stream(seed, "config")
         r = stream(seed, "ops")
+        er = stream(seed, "env")
         ninit = c.randint(1, 3)
         init = [c.choice(["A", "A", "B"]) for _ in range(ninit)]
         nops = deep(c, [5, 10, 16, 24, 40], [60, 90])
@@ -91,6 +94,14 @@ class Prop:
                 op = {"k": "new", "cls": r.choice(["A", "A", "B"])}
             elif x < 0.30:
                 op = {"k": "read", "o": o, "name": name}
+                if r.random() < 0.15:
+                    # a first read that fails after the default has been computed: the
+                    # trait's post_setattr hook (a user callback) raises
+                    op["name"] = "ps"
+                    if er.random() < 0.7:
+                        op["env"] = [{"at": "post_setattr:ps", "nth": 1, "do": "raise",
+                                      "exc": er.choice(["ValueError", "RuntimeError",
+                                                        "AttributeError", "TraitError"])}]
             elif x < 0.48:
                 op = {"k": "mutate", "o": o, "name": name, "v": ctr[0]}
             elif x < 0.64:
@@ -127,6 +138,25 @@ class Prop:
             calls["factory"] = calls.get("factory", 0) + 1
             return {"made": True}
 
+        def mk_ps(cls_name):
+            def _ps_default(self):
+                env.point("default:ps")
+                key = (self.__dict__.get("_sim_serial"), "ps")
+                calls[key] = calls.get(key, 0) + 1
+                return ["ps", cls_name]
+            return _ps_default
+
+        from traits.api import TraitType
+
+        class PostSet(TraitType):
+            """Accepts anything; its post_setattr hook is a callback point (it also
+            runs when the default is stored by a first read)."""
+            def validate(self, object, name, value):
+                return value
+
+            def post_setattr(self, object, name, value):
+                env.point("post_setattr:ps")
+
         def mk_dyn(cls_name):
             def _dyn_default(self):
                 env.point("default:dyn")
@@ -158,6 +188,7 @@ class Prop:
                 "ts": Tuple(Set(Int), Int), "td": Tuple(Dict(Str, Int), Int),
                 "us": Union(Set(Int), None), "tn": Tuple(Str, Tuple(Set(Int), Int)),
                 "inst": Instance(list, ([7],)),
+                "ps": PostSet(), "_ps_default": mk_ps("A"),
                 "_dyn_default": mk_dyn("A"), "_c_changed": _c_changed,
                 "_anytrait_changed": _anytrait_changed,
                 "_dec": observe("c, l, d, s, al, dyn")(_dec),
@@ -166,6 +197,7 @@ class Prop:
             A = type(HasTraits)("A", (HasTraits,), ns)
             B = type(HasTraits)("B", (A,), {"l": List(Int, [9]), "c": Int(4), "al": Any([8]),
                                             "_dyn_default": mk_dyn("B"),
+                                            "_ps_default": mk_ps("B"),
                                             "__module__": "simtraits.dyn"})
         A.__qualname__, B.__qualname__ = "A", "B"
         DYN.A, DYN.B = A, B
@@ -255,6 +287,13 @@ class Prop:
                     name = op["name"]
                     fresh = name not in m
                     v, e = sut(getattr, o, name)
+                    if isinstance(e, InjectedFault) and fresh and name == "ps":
+                        # the hook failed after the default had been computed: the read
+                        # fails, but the default is computed once all the same - the next
+                        # read returns it without running the default method again
+                        stats["failed_first_reads"] = stats.get("failed_first_reads", 0) + 1
+                        del hlog[:]
+                        v, e = sut(getattr, o, name)
                     if e is not None:
                         raise Violation("C10.read", "reading %s raised %r" % (name, e), i)
                     env.oracle_evals += 1
@@ -410,15 +449,15 @@ class Prop:
 
     @staticmethod
     def check_counts(calls, calls0, o, name, fresh, cn, step):
-        if name == "dyn":
-            key = (o.__dict__.get("_sim_serial"), "dyn")
+        if name in ("dyn", "ps"):
+            key = (o.__dict__.get("_sim_serial"), name)
             d = calls.get(key, 0) - calls0.get(key, 0)
             if fresh and d != 1:
-                raise Violation("C10.default-count", "first read of dyn ran _dyn_default %d times"
-                                % d, step)
+                raise Violation("C10.default-count", "first read of %s ran _%s_default %d times"
+                                % (name, name, d), step)
             if not fresh and d != 0:
-                raise Violation("C10.default-recomputed", "re-read of dyn ran _dyn_default again",
-                                step)
+                raise Violation("C10.default-recomputed", "re-read of %s ran _%s_default again"
+                                % (name, name), step)
         if name == "fac":
             d = calls.get("factory", 0) - calls0.get("factory", 0)
             if (fresh and d != 1) or (not fresh and d != 0):
@@ -431,7 +470,7 @@ class Prop:
         bad = op.get("bad")
         if name == "c":
             return ("x", False) if bad else (n, True)
-        if name in ("al", "ad", "fac", "dyn"):
+        if name in ("al", "ad", "fac", "dyn", "ps"):
             return ([n] if op.get("alt") else {"q": n}), True
         if name == "l":
             return (["x"], False) if bad else ([n, n + 1], True)
@@ -495,7 +534,7 @@ class Prop:
                 raise Violation("C10.fresh-default", "constructing a fresh %s raised %r" % (cn, e),
                                 step)
             for name in NAMES:
-                if name in ("dyn", "fac"):
+                if name in ("dyn", "fac", "ps"):
                     continue
                 v, e = sut(getattr, f, name)
                 env.oracle_evals += 1
